@@ -125,16 +125,16 @@ theorem inv_newAllocation {s : State} {ex : List FBlk} {n : Nat} (h : InvX s ex)
   have h3 := h.pages_le
   have hd := h.alive
   have hsum : (s.heapPtr + (8 + n)) % 4294967296 = s.heapPtr + 8 + n := by omega
-  have hlt : s.heapPtr + 8 + n < 2147483648 := by omega
   unfold newAllocation at hr
-  simp only [hsum, hlt, if_true, true_and] at hr
+  simp only [hsum] at hr
   by_cases hg : s.heapPtr + 8 + n ≥ s.heapTop
   · simp only [hg, decide_true, Bool.true_and, if_true] at hr
     split at hr
     · cases hr
     · rename_i hmax
       simp only [decide_eq_true_eq] at hmax
-      simp only [Prod.mk.injEq, Option.some.injEq] at hr
+      have hlt : s.heapPtr + 8 + n < 2147483648 := by omega
+      simp only [hlt, if_true, Prod.mk.injEq, Option.some.injEq] at hr
       obtain ⟨e1, e2, _⟩ := hr
       subst e1; subst e2
       have := invX_bump h n hn8 (s.heapTop + (8 + n + 65535) / 65536 * 65536) (s.pages + (8 + n + 65535) / 65536)
@@ -142,7 +142,8 @@ theorem inv_newAllocation {s : State} {ex : List FBlk} {n : Nat} (h : InvX s ex)
       refine ⟨?_, rfl, rfl, rfl⟩
       simp only [hd] at this ⊢
       exact this
-  · simp only [hg, decide_false, Bool.false_and, Bool.false_eq_true, ↓reduceIte, Prod.mk.injEq, Option.some.injEq] at hr
+  · have hlt : s.heapPtr + 8 + n < 2147483648 := by omega
+    simp only [hg, hlt, decide_false, Bool.false_and, Bool.false_eq_true, ↓reduceIte, Prod.mk.injEq, Option.some.injEq] at hr
     obtain ⟨e1, e2, _⟩ := hr
     subst e1; subst e2
     have := invX_bump h n hn8 s.heapTop s.pages h2 h3 (by omega)
@@ -162,8 +163,8 @@ theorem malloc_cases {s : State} (h : Inv s) (req : Nat) (hok : OpOK s.cfg (.mal
       (malloc s req).st = addLive s1 b req ∧ (malloc s req).ret = b.1 + 8) := by
   unfold OpOK at hok
   have hn8 := effSize_mod8 s.cfg req
-  have hpos := effSize_pos s.cfg req hok.2
-  have hle := effSize_le s.cfg req hok.1
+  have hpos := effSize_pos s.cfg req
+  have hle := effSize_le s.cfg req hok
   unfold malloc
   simp only
   split
